@@ -97,6 +97,7 @@ func (o *offsetDB) parseOne(content string, offsets fpOffsets) (string, error) {
 	if err != nil {
 		return "", fmt.Errorf("can't parse file: %w", err)
 	}
+	filename = parseName(filename)
 	inodeStr, content, err = o.parseLine(content, "  inode: ")
 	if err != nil {
 		return "", fmt.Errorf("can't parse inode: %w", err)
@@ -169,10 +170,10 @@ func (o *offsetDB) parseStreams(content string, streams streamsOffsets) (string,
 		if pos < 0 {
 			return "", fmt.Errorf("wrong offsets format, no separator %q", line)
 		}
-		stream := pipeline.StreamName(line[4:pos])
-		if len(stream) == 0 {
+		if pos == 4 {
 			return "", fmt.Errorf("wrong offsets format, empty stream, %s", content)
 		}
+		stream := pipeline.StreamName(parseName(line[4:pos]))
 
 		_, has := streams[stream]
 		if has {
@@ -223,6 +224,26 @@ func (o *offsetDB) parseOptionalLine(content string, prefix string) (string, str
 	return "", content, nil
 }
 
+// appendName appends a file or stream name. A name that would break the line-oriented
+// format (empty stream, line break inside) or that looks like a quoted string
+// is written as a double-quoted string, which is also how YAML spells it.
+func appendName(buf []byte, name string) []byte {
+	if name == "" || name[0] == '"' || strings.IndexByte(name, '\n') >= 0 {
+		return strconv.AppendQuote(buf, name)
+	}
+	return append(buf, name...)
+}
+
+// parseName is the inverse of appendName.
+func parseName(s string) string {
+	if len(s) >= 2 && s[0] == '"' {
+		if unquoted, err := strconv.Unquote(s); err == nil {
+			return unquoted
+		}
+	}
+	return s
+}
+
 func safeSubstring(s string, length int) string {
 	if len(s) < length {
 		return s
@@ -264,7 +285,7 @@ func (o *offsetDB) save(jobs map[pipeline.SourceID]*Job, mu *sync.RWMutex) {
 		}
 
 		o.buf = append(o.buf, "- file: "...)
-		o.buf = append(o.buf, job.filename...)
+		o.buf = appendName(o.buf, job.filename)
 		o.buf = append(o.buf, '\n')
 
 		o.buf = append(o.buf, "  inode: "...)
@@ -282,7 +303,7 @@ func (o *offsetDB) save(jobs map[pipeline.SourceID]*Job, mu *sync.RWMutex) {
 		o.buf = append(o.buf, "  streams:\n"...)
 		for _, strOff := range job.offsets {
 			o.buf = append(o.buf, "    "...)
-			o.buf = append(o.buf, string(strOff.Stream)...)
+			o.buf = appendName(o.buf, string(strOff.Stream))
 			o.buf = append(o.buf, ": "...)
 			o.buf = strconv.AppendUint(o.buf, uint64(strOff.Offset), 10)
 			o.buf = append(o.buf, '\n')
